@@ -1,5 +1,416 @@
-use crate::Ctx;
+//! C11 – pipelined requests are read ahead without waiting for earlier answers.
+//! Program A: all bodies absent or <= 1024 bytes; the application collects all n requests while
+//!            answering none. On expiry the kick is "answer the oldest held request".
+//! Program B: some bodies are large or chunked; the successor must appear once the body was
+//!            read to its end (before any answer), or the request was answered or dropped.
 
-pub fn run(_ctx: &Ctx) {
-    unimplemented!()
+use crate::alloc::lib;
+use crate::env::{CaseApp, Env};
+use crate::gen;
+use crate::net::{Client, Got};
+use crate::report::Violation;
+use crate::util::{now_ns, sleep_us, spawn_named, CalWindow, Rng, J};
+use crate::Ctx;
+use std::io::Read;
+use std::sync::{Arc, Condvar, Mutex};
+use std::time::{Duration, Instant};
+use tiny_http::verif as v;
+use tiny_http::{Request, Response};
+
+struct Held {
+    rq: Option<Request>,
+    url: String,
+    t_ns: u64,
+}
+
+struct HoldApp {
+    port: u16,
+    held: Mutex<Vec<Held>>,
+    cv: Condvar,
+}
+
+impl CaseApp for HoldApp {
+    fn accepts(&self, port: u16, _rq: &Request) -> bool {
+        port == self.port
+    }
+    fn on_request(&self, rq: Request) {
+        let mut h = self.held.lock().unwrap();
+        let url = rq.url().to_string();
+        h.push(Held { rq: Some(rq), url, t_ns: now_ns() });
+        self.cv.notify_all();
+    }
+}
+
+impl HoldApp {
+    fn wait_count(&self, n: usize, timeout: Duration) -> usize {
+        let deadline = Instant::now() + timeout;
+        let mut h = self.held.lock().unwrap();
+        loop {
+            if h.len() >= n {
+                return h.len();
+            }
+            let now = Instant::now();
+            if now >= deadline {
+                return h.len();
+            }
+            let (g, _) = self.cv.wait_timeout(h, deadline - now).unwrap();
+            h = g;
+        }
+    }
+    fn take(&self, k: usize) -> Option<Request> {
+        self.held.lock().unwrap().get_mut(k).and_then(|h| h.rq.take())
+    }
+}
+
+#[derive(Clone, Debug, PartialEq)]
+enum BodyKind {
+    None,
+    Cl(usize),
+    Chunked(usize),
+}
+
+impl BodyKind {
+    fn small(&self) -> bool {
+        match self {
+            BodyKind::None => true,
+            BodyKind::Cl(n) => *n <= 1024,
+            BodyKind::Chunked(_) => false,
+        }
+    }
+}
+
+#[derive(Clone, Debug, PartialEq)]
+enum LargeAction {
+    ReadToEofThenWaitSuccessor,
+    AnswerWithoutReading,
+    Drop,
+}
+
+fn build_pipeline(rng: &mut Rng, trial: u64, kinds: &[BodyKind]) -> Vec<u8> {
+    let mut wire = Vec::new();
+    for (i, k) in kinds.iter().enumerate() {
+        let method = if *k == BodyKind::None { "GET" } else { "POST" };
+        let mut head = format!("{} /r/{:x}/{} HTTP/1.1\r\nHost: h\r\n", method, trial, i);
+        match k {
+            BodyKind::None => {
+                head.push_str("\r\n");
+                wire.extend_from_slice(head.as_bytes());
+            }
+            BodyKind::Cl(n) => {
+                head.push_str(&format!("Content-Length: {}\r\n\r\n", n));
+                wire.extend_from_slice(head.as_bytes());
+                wire.extend_from_slice(&gen::body_bytes(trial ^ i as u64, *n, true));
+            }
+            BodyKind::Chunked(n) => {
+                head.push_str("Transfer-Encoding: chunked\r\n\r\n");
+                wire.extend_from_slice(head.as_bytes());
+                let d = gen::body_bytes(trial ^ i as u64, *n, true);
+                let ch = gen::gen_chunking(rng, *n, 900);
+                wire.extend_from_slice(&gen::encode_chunked(&d, &ch));
+            }
+        }
+    }
+    wire
+}
+
+fn send_wire(rng: &mut Rng, c: &mut Client, wire: &[u8]) {
+    if rng.chance(1, 2) || wire.len() < 4 {
+        c.send(wire);
+    } else {
+        let k = rng.range(2, 4);
+        let ends = gen::random_splits(rng, wire.len(), k);
+        let mut pos = 0;
+        for e in ends {
+            c.send(&wire[pos..e]);
+            pos = e;
+            sleep_us(rng.range(0, 800) as u64);
+        }
+    }
+}
+
+fn run_trial(ctx: &Ctx, env: &Env, cs: u64) {
+    let rep = &ctx.rep;
+    let mut rng = Rng::new(cs);
+    let trial = cs & 0xffff_ffff;
+    let n = rng.range(2, 8);
+    let program_b = rng.chance(1, 2);
+    let small_kinds = [BodyKind::None, BodyKind::None, BodyKind::Cl(1), BodyKind::Cl(1023), BodyKind::Cl(1024), BodyKind::Cl(1024)];
+    let large_kinds = [BodyKind::Cl(1025), BodyKind::Cl(20000), BodyKind::Chunked(3000), BodyKind::Chunked(10)];
+    let mut kinds: Vec<BodyKind> = (0..n).map(|_| rng.pick(&small_kinds).clone()).collect();
+    if program_b {
+        let nl = rng.range(1, 2.min(n - 1).max(1));
+        for _ in 0..nl {
+            let at = rng.below(n - 1); // the last request has no successor to wait for
+            kinds[at] = rng.pick(&large_kinds).clone();
+        }
+    }
+    let wire = build_pipeline(&mut rng, trial, &kinds);
+    let bound = Duration::from_millis(1500);
+    let mut client = match Client::connect(&env.addr) {
+        Ok(c) => c,
+        Err(e) => {
+            rep.inconclusive(&format!("connect: {}", e));
+            return;
+        }
+    };
+    let app = Arc::new(HoldApp { port: client.port, held: Mutex::new(Vec::new()), cv: Condvar::new() });
+    env.set_app(Some(app.clone()));
+    let cal = CalWindow::open();
+    send_wire(&mut rng, &mut client, &wire);
+    let mut verdict: Option<(String, String)> = None;
+    let mut inconclusive: Option<String> = None;
+    let mut log: Vec<String> = Vec::new();
+    let sig;
+    if !program_b {
+        sig = format!("A|n{}|{:?}", n, kinds);
+        let got = app.wait_count(n, bound);
+        log.push(format!("{} of {} requests held while none was answered", got, n));
+        if got >= 3 {
+            rep.inc("A_trials_holding_3_or_more_unanswered");
+        }
+        if kinds.iter().any(|k| *k == BodyKind::Cl(1024)) {
+            rep.inc("A_trials_with_body_of_exactly_1024");
+        }
+        if got < n {
+            let (healthy, _, _) = crate::conv::confirm_healthy(env, &cal, bound);
+            if !healthy {
+                inconclusive = Some("A: pipeline not delivered, process/server not demonstrably running".into());
+            } else {
+                // kick: answer the oldest held request
+                if let Some(rq) = app.take(0) {
+                    let _ = lib(|| rq.respond(Response::from_string("kick")));
+                }
+                let after = app.wait_count(got + 1, Duration::from_millis(150));
+                if after > got {
+                    verdict = Some((
+                        "C11/A/successor-waited-for-answer".into(),
+                        format!(
+                            "only {} of {} small-bodied pipelined requests became available while none was answered; request #{} appeared after request #0 was answered",
+                            got, n, got
+                        ),
+                    ));
+                } else {
+                    verdict = Some((
+                        "C11/A/pipeline-not-delivered".into(),
+                        format!("only {} of {} small-bodied pipelined requests became available within the bound (answering the oldest did not help)", got, n),
+                    ));
+                }
+            }
+        }
+        // answer everything in random order, each on its own thread
+        let mut order: Vec<usize> = (0..app.held.lock().unwrap().len()).collect();
+        rng.shuffle(&mut order);
+        let mut hs = Vec::new();
+        for k in order {
+            if let Some(rq) = app.take(k) {
+                hs.push(spawn_named(&format!("a{}", k), move || {
+                    let _ = lib(|| rq.respond(Response::from_string(format!("ok {}", k))));
+                }));
+                sleep_us(rng.range(0, 300) as u64);
+            }
+        }
+        for h in hs {
+            let _ = h.join();
+        }
+    } else {
+        let mut actions = Vec::new();
+        let mut t_release = Instant::now();
+        let mut release_what = "connection start".to_string();
+        let mut k = 0usize;
+        while k < n {
+            let got = app.wait_count(k + 1, bound.saturating_sub(t_release.elapsed().min(bound)).max(Duration::from_millis(1)));
+            if got <= k {
+                let (healthy, _, _) = crate::conv::confirm_healthy(env, &cal, bound);
+                if !healthy {
+                    inconclusive = Some("B: successor missing, process/server not demonstrably running".into());
+                } else {
+                    verdict = Some((
+                        "C11/B/successor-not-delivered".into(),
+                        format!("request #{} was not delivered within the bound after: {}", k, release_what),
+                    ));
+                }
+                break;
+            }
+            log.push(format!("request #{} delivered {} us after: {}", k, t_release.elapsed().as_micros(), release_what));
+            let kind = kinds[k].clone();
+            let mut rq = match app.take(k) {
+                Some(r) => r,
+                None => break,
+            };
+            if kind.small() {
+                // small body: answer right away or hold it until the successor is there
+                let hold = rng.chance(1, 2) && k + 1 < n;
+                if hold {
+                    t_release = Instant::now();
+                    release_what = format!("request #{} (small body) parsed, still unanswered", k);
+                    let got = app.wait_count(k + 2, bound);
+                    if got < k + 2 {
+                        let (healthy, _, _) = crate::conv::confirm_healthy(env, &cal, bound);
+                        if !healthy {
+                            inconclusive = Some("B: held small request, successor missing, unhealthy".into());
+                            drop(rq);
+                            break;
+                        }
+                        let _ = lib(|| rq.respond(Response::from_string("kick")));
+                        let after = app.wait_count(k + 2, Duration::from_millis(150));
+                        verdict = Some((
+                            if after >= k + 2 { "C11/B/successor-waited-for-answer".into() } else { "C11/B/successor-not-delivered".into() },
+                            format!("successor of unanswered small-bodied request #{} did not become available", k),
+                        ));
+                        break;
+                    }
+                    actions.push("small:hold-until-successor");
+                    let _ = lib(|| rq.respond(Response::from_string("ok")));
+                } else {
+                    actions.push("small:answer");
+                    let _ = lib(|| rq.respond(Response::from_string("ok")));
+                    t_release = Instant::now();
+                    release_what = format!("request #{} answered", k);
+                }
+                k += 1;
+                continue;
+            }
+            let act = match rng.below(3) {
+                0 => LargeAction::ReadToEofThenWaitSuccessor,
+                1 => LargeAction::AnswerWithoutReading,
+                _ => LargeAction::Drop,
+            };
+            match act {
+                LargeAction::ReadToEofThenWaitSuccessor => {
+                    actions.push("large:read-to-eof-then-wait");
+                    let mut buf = vec![0u8; *rng.pick(&[1usize, 100, 4096, 65536])];
+                    let mut total = 0usize;
+                    let mut err = None;
+                    loop {
+                        match lib(|| rq.as_reader().read(&mut buf)) {
+                            Ok(0) => break,
+                            Ok(m) => total += m,
+                            Err(e) => {
+                                err = Some(e.to_string());
+                                break;
+                            }
+                        }
+                    }
+                    if let Some(e) = err {
+                        inconclusive = Some(format!("B: body read error {}", e));
+                        drop(rq);
+                        break;
+                    }
+                    t_release = Instant::now();
+                    release_what = format!("body of request #{} ({} bytes) read until Ok(0), request still unanswered", k, total);
+                    if k + 1 < n {
+                        let got = app.wait_count(k + 2, bound);
+                        if got < k + 2 {
+                            let (healthy, _, _) = crate::conv::confirm_healthy(env, &cal, bound);
+                            if !healthy {
+                                inconclusive = Some("B: successor missing after EOF, unhealthy".into());
+                                drop(rq);
+                                break;
+                            }
+                            // kick: answer it
+                            let _ = lib(|| rq.respond(Response::from_string("kick")));
+                            let after = app.wait_count(k + 2, Duration::from_millis(150));
+                            verdict = Some((
+                                if after >= k + 2 { "C11/B/successor-waited-for-answer-after-body-read".into() } else { "C11/B/successor-not-delivered".into() },
+                                format!(
+                                    "after the {} body of request #{} was read to its end the successor did not become available{}",
+                                    match kind {
+                                        BodyKind::Chunked(_) => "chunked",
+                                        _ => "large",
+                                    },
+                                    k,
+                                    if after >= k + 2 { "; it appeared once the request was answered" } else { "" }
+                                ),
+                            ));
+                            break;
+                        }
+                        rep.inc("B_successor_seen_before_answer_after_eof");
+                    }
+                    let _ = lib(|| rq.respond(Response::from_string("ok")));
+                }
+                LargeAction::AnswerWithoutReading => {
+                    actions.push("large:answer-without-reading");
+                    let _ = lib(|| rq.respond(Response::from_string("ok")));
+                    t_release = Instant::now();
+                    release_what = format!("request #{} answered without reading its body", k);
+                }
+                LargeAction::Drop => {
+                    actions.push("large:drop");
+                    lib(|| drop(rq));
+                    t_release = Instant::now();
+                    release_what = format!("request #{} dropped", k);
+                }
+            }
+            k += 1;
+        }
+        // anything still held is answered so the connection can end
+        let left = app.held.lock().unwrap().len();
+        for i in 0..left {
+            if let Some(rq) = app.take(i) {
+                let _ = lib(|| rq.respond(Response::from_string("late")));
+            }
+        }
+        sig = format!("B|n{}|{:?}|{:?}", n, kinds, actions);
+    }
+    env.set_app(None);
+    client.half_close();
+    let _ = client.await_end(&|_| false, Duration::from_millis(if verdict.is_some() { 100 } else { 1500 }));
+    // drop whatever arrived late
+    let left = app.held.lock().unwrap().len();
+    for i in 0..left {
+        if let Some(rq) = app.take(i) {
+            drop(rq);
+        }
+    }
+    rep.inc(if program_b { "program:B" } else { "program:A" });
+    if let Some(why) = inconclusive {
+        rep.inconclusive(&why);
+        return;
+    }
+    rep.eval(Some(&sig));
+    let detail = J::obj()
+        .set("program", J::s(if program_b { "B" } else { "A" }))
+        .set("body_kinds", J::s(format!("{:?}", kinds)))
+        .set("wire_len", J::u(wire.len()))
+        .set("log", J::A(log.iter().map(J::s).collect()))
+        .set(
+            "deliveries",
+            J::A(app.held.lock().unwrap().iter().map(|h| J::s(format!("{} at {} us", h.url, h.t_ns / 1000))).collect()),
+        );
+    if let Some((s, what)) = verdict {
+        rep.violation(Violation { signature: s, what, detail, case_seed: cs, mode: "native".into() });
+    } else if rep.want_sample() && cs % 7 == 0 {
+        rep.sample(|| detail);
+    }
+}
+
+pub fn run(ctx: &Ctx) {
+    crate::env::install_fp_hook();
+    if let Some((cs, _, repeat)) = &ctx.replay {
+        let env = Env::new(false, 1);
+        crate::env::fp_configure(*cs, &[v::FP_READER_HANDOFF, v::FP_CONN_PRE_PUSH], 150, 300);
+        for _ in 0..(*repeat).max(1) {
+            run_trial(ctx, &env, *cs);
+        }
+        return;
+    }
+    let mut rng = Rng::new(ctx.seed ^ ((ctx.shard as u64) << 32) ^ 0xC11);
+    let pert = crate::env::perturb_setup(&mut rng, ctx.shard, true);
+    let permille = *rng.pick(&[0u32, 100, 300]);
+    crate::env::fp_configure(ctx.seed ^ ctx.shard as u64, &[v::FP_READER_HANDOFF, v::FP_CONN_PRE_PUSH], permille, 300);
+    let mut env = Env::new(false, 1);
+    let mut idx = 0u64;
+    while ctx.time_left() {
+        if env.cases_run >= 2000 {
+            env = Env::new(false, 1);
+        }
+        run_trial(ctx, &env, ctx.case_seed(idx));
+        env.cases_run += 1;
+        idx += 1;
+        if ctx.rep.n_violations() >= 8 {
+            break;
+        }
+    }
+    ctx.rep.set_extra("perturbation", J::s(format!("{} fp_delay_permille={}", pert.desc, permille)));
+    ctx.rep.set_extra("failpoints", J::O(crate::env::fp_hits().into_iter().map(|(k, v)| (k, J::I(v as i64))).collect()));
 }
